@@ -322,7 +322,8 @@ def _top_map(doc, g, values, points, rng, res, rts, viol, kw0) -> None:
                     for ix, (si, ai) in enumerate(zip(sync_items, out["items"])):
                         if si["status"] == "failed" and ai["status"] == "failed":
                             sv, av = si["values"] or {}, ai["values"] or {}
-                            lost = {k: v for k, v in sv.items() if k not in av or canon(av[k]) != canon(v)}
+                            # (a DIFFERENT value for a name a sibling re-produced in the failing step is C02's known finding, not a loss)
+                            lost = {k: v for k, v in sv.items() if k not in av}
                             if lost:
                                 viol.append((f"{label}:failed_map_item_lost_completed_values", {"item": ix, "sync_item_values": sv, "async_item_values": av}))
                                 break
